@@ -483,6 +483,12 @@ func TestVF_C19_Matrix(t *testing.T) {
 		c19Fail(t, st, part, map[string]string{"role": "client", "ca_server_name": ""}, fmt.Sprintf("client TLS config with CA verification on and no server name was built and would not verify the server's name (InsecureSkipVerify=%v)", cfg != nil && cfg.InsecureSkipVerify))
 	}
 	st.Case(vfshared.Fingerprint("client", "no-server-name"), true, "fail_closed_server_name")
+	// the same without an own certificate: a CA to verify the server against is configured (verification not disabled),
+	// so the proxy must not end up connecting without TLS at all - either the configuration is refused or it verifies
+	if cfg, err := GetClientTLSConfig(TLSConfig{RemoteCAPath: caFile}); err == nil && (cfg == nil || cfg.InsecureSkipVerify || cfg.ServerName == "") {
+		c19Fail(t, st, part, map[string]string{"role": "client", "ca_server_name": "", "own_cert": "none", "remote_ca": "configured"}, fmt.Sprintf("client with a CA configured to verify the server against (verification not disabled) and nothing else: no error, and the resulting TLS configuration is %v - the proxy connects without TLS (or without verification) to whoever answers", cfg))
+	}
+	st.Case(vfshared.Fingerprint("client", "ca-only"), true, "fail_closed_ca_only_client")
 	done := true
 	st.Exhaustive = &done
 }
